@@ -438,6 +438,8 @@ class PythonAction(BaseAction):
         @return failure: see CmdAction.execute
         """
         capture_io = self.task.io.capture if self.task else True
+        # might raise an exception, do it before std streams are replaced
+        kwargs = self._prepare_kwargs()
 
         if capture_io:
             # set std stream
@@ -464,9 +466,6 @@ class PythonAction(BaseAction):
             if err:
                 old_stderr = sys.stderr
                 sys.stderr = err
-
-
-        kwargs = self._prepare_kwargs()
 
         # execute action / callable
         try:
